@@ -98,6 +98,7 @@ type instance struct {
 	up          bool
 	waitProc    chan struct{}
 	failedSince *time.Time
+	lastFailed  bool
 	logger      types.Logger
 	options     *InstanceOptions
 	config      Config
@@ -289,6 +290,12 @@ func (i *instance) AcmeUpdate() {
 }
 
 func (i *instance) HAProxyUpdate(timer *utils.Timer) error {
+	err := i.haproxyUpdate(timer)
+	i.lastFailed = err != nil
+	return err
+}
+
+func (i *instance) haproxyUpdate(timer *utils.Timer) error {
 	// nil config, just ignore
 	if i.config == nil {
 		return nil
@@ -301,7 +308,11 @@ func (i *instance) HAProxyUpdate(timer *utils.Timer) error {
 	//
 	defer i.config.Commit()
 	i.config.SyncConfig()
-	i.config.Shrink()
+	if !i.lastFailed {
+		// The state committed by a failed update was not completely written or loaded,
+		// so it cannot be used to skip the synchronization of the unchanged objects.
+		i.config.Shrink()
+	}
 	if err := i.config.WriteTCPServicesMaps(); err != nil {
 		i.metrics.IncUpdateNoop()
 		return fmt.Errorf("error building tcp services maps: %w", err)
